@@ -78,7 +78,9 @@ Inductive op :=
 | OCloseSetup                   (* close(s.setupReceived) *)
 | OWaitSetup                    (* select { case <-s.setupReceived: case <-s.ctx.Done(): return "terminated" } *)
 | OStateIs (st : sstate) (e : err)   (* if s.state != st { return e } *)
+| OStateNot (st : sstate) (e : err)  (* if s.state == st { return e } *)
 | OStateSet (st : sstate)       (* s.state = st *)
+| OReadState                    (* any other read of s.state (error messages) *)
 | OReadName                     (* body of getPathNameAndQuery *)
 | OCallPM (publish : bool)      (* pathManager.AddReader / AddPublisher *)
 | OStreamReady                  (* if s.stream == nil { return "stream not ready" } *)
@@ -123,9 +125,11 @@ Record ghost := {
   a_tok : option sstate;        (* it is the goroutine that moved state from idle to this value and still owes the
                                    follow-up (close(publishReady) / s.stream = ...) *)
   a_kt : option nat;            (* it has seen this index below len(setupTracks) *)
-  a_rdy : bool                  (* it has seen publishReady closed *)
+  a_rdy : bool;                 (* it has seen publishReady closed *)
+  a_kn : bool                   (* under the lock it has seen state != idle (the state never returns to idle) *)
 }.
-Definition abs0 : ghost := {| a_k := false; a_ki := false; a_tok := None; a_kt := None; a_rdy := false |}.
+Definition abs0 : ghost :=
+  {| a_k := false; a_ki := false; a_tok := None; a_kt := None; a_rdy := false; a_kn := false |}.
 
 Record thread := {
   t_ops : list op;
@@ -283,7 +287,11 @@ Definition exec (c : cfg) (g : sess) (i : nat) (t : thread) (ch : nat) : outcome
         | None => XBlocked
         end
     | OStateIs st e => guarded (if st_eqb (g_st g) st then go g t1 else ret g t e)
+    | OStateNot st e => guarded (if st_eqb (g_st g) st then ret g t e else go g t1)
     | OStateSet st => guarded (go (set_st g st) t1)
+      (* without the mutex a read of s.state is safe only when no write can come any more: the state is written
+         only while it is idle *)
+    | OReadState => if t_holds t || negb (st_eqb (g_st g) SIdle) then go g t1 else XUnprotected
     | OReadName => guarded (go g (t_set_name t1 (g_name g) (g_query g)))
     | OCallPM p => go g (t_set_pm t1 p)
     | OStreamReady => guarded (match g_tracks g with None => ret g t EStreamNotReady | Some _ => go g t1 end)
@@ -339,7 +347,8 @@ Definition req (h : bool) (a : ghost) (o : op) : bool :=
   | OLock => negb h
   | OUnlock => h
   | ORead | ODrain | OWaitSetup | ORecvCatalog | OWaitPubReady | OWaitEofOrCtx | OCallPM _ | OWrite _ | ORet _ => negb h
-  | OSetupOpts _ | OReadName | OStreamReady | OSetPath | OApiRead | OStateIs _ _ => h
+  | OSetupOpts _ | OReadName | OStreamReady | OSetPath | OApiRead | OStateIs _ _ | OStateNot _ _ => h
+  | OReadState => h || a_kn a
   | OSelectSetup | OSendCatalog _ | OCancel => true
   | OCloseSetup => h && a_k a
   | OStateSet st => h && a_ki a && negb (st_eqb st SIdle)
@@ -352,13 +361,15 @@ Definition req (h : bool) (a : ghost) (o : op) : bool :=
   end.
 
 Definition a_set (a : ghost) (k ki : bool) : ghost :=
-  {| a_k := k; a_ki := ki; a_tok := a_tok a; a_kt := a_kt a; a_rdy := a_rdy a |}.
+  {| a_k := k; a_ki := ki; a_tok := a_tok a; a_kt := a_kt a; a_rdy := a_rdy a; a_kn := a_kn a |}.
 Definition a_set_tok (a : ghost) (t : option sstate) : ghost :=
-  {| a_k := a_k a; a_ki := false; a_tok := t; a_kt := a_kt a; a_rdy := a_rdy a |}.
+  {| a_k := a_k a; a_ki := false; a_tok := t; a_kt := a_kt a; a_rdy := a_rdy a; a_kn := a_kn a |}.
 Definition a_set_kt (a : ghost) (n : nat) : ghost :=
-  {| a_k := a_k a; a_ki := a_ki a; a_tok := a_tok a; a_kt := Some n; a_rdy := a_rdy a |}.
+  {| a_k := a_k a; a_ki := a_ki a; a_tok := a_tok a; a_kt := Some n; a_rdy := a_rdy a; a_kn := a_kn a |}.
 Definition a_set_rdy (a : ghost) : ghost :=
-  {| a_k := a_k a; a_ki := a_ki a; a_tok := a_tok a; a_kt := a_kt a; a_rdy := true |}.
+  {| a_k := a_k a; a_ki := a_ki a; a_tok := a_tok a; a_kt := a_kt a; a_rdy := true; a_kn := a_kn a |}.
+Definition a_set_kn (a : ghost) : ghost :=
+  {| a_k := a_k a; a_ki := a_ki a; a_tok := a_tok a; a_kt := a_kt a; a_rdy := a_rdy a; a_kn := true |}.
 
 (* knowledge after the statement has been executed without returning *)
 Definition learn (h : bool) (a : ghost) (o : op) : ghost :=
@@ -367,7 +378,8 @@ Definition learn (h : bool) (a : ghost) (o : op) : ghost :=
   | OSelectSetup => a_set a h (a_ki a)
   | OCloseSetup => a_set a false (a_ki a)
   | OStateIs SIdle _ => a_set a (a_k a) h
-  | OStateSet st => a_set_tok a (Some st)
+  | OStateIs _ _ | OStateNot SIdle _ => if h then a_set_kn a else a
+  | OStateSet st => a_set_kn (a_set_tok a (Some st))
   | OTrackIndex _ n => a_set_kt a n
   | OSetStream _ | OClosePubReady => a_set_tok a None
   | OWaitPubReady => a_set_rdy a
